@@ -28,19 +28,49 @@ def _load():
     return inst_ref
 
 
+_CACHE = {}
+
+
 def bounded(tier, seed, stop_first=False):
-    return _load().run(tier, seed, stop_first)
+    # one run per (tier, seed) and process: the check and every replay search look at the same result
+    k = (tier, seed, stop_first)
+    if k not in _CACHE:
+        _CACHE[k] = _load().run(tier, seed, stop_first)
+    return _CACHE[k]
+
+
+# which bounded checks exhibit the failure of which proof obligation (clause name -> prefixes of check names)
+RELEVANT = {
+    'not-mentioned-in-later-bound': ('bounded[variance:in-bound',),
+    'index-is-current-parameter': ('bounded[variance:in-bound',),
+    'switch-variance': ('bounded[variance:switch',),
+    'switch-contravariance': ('bounded[variance:switch',),
+    'choices-present': ('bounded[variance:caller-choice',),
+    'caller-allows': ('bounded[variance:caller-choice',),
+    'disable-variance': ('bounded[variance:caller-choice',),
+    'declared-variance': ('bounded[variance:declared',),
+    'never-invariant': ('bounded[variance:',),
+    'projects-a-usable-type': ('bounded[no-bare-constructor',),
+    'no-uninstantiated-generic': ('bounded[no-bare-constructor',),
+}
 
 
 def replay_search(obligation, qual, seed, tier):
-    """a concrete failing input for a failed obligation of `qual`: the first bounded violation on that function (any
-    violation if none names it)"""
+    """a concrete failing input for a failed proof obligation: a bounded violation of the checks that observe the clause the
+    obligation is about (none: the violation is reported without a concrete input)"""
+    prefixes = ()
+    for clause, pre in RELEVANT.items():
+        if '[' + clause + ']' in obligation:
+            prefixes = pre
+    if not prefixes:
+        return None
     r = bounded('quick', seed)
     v = r.get('violations') or []
-    if not v and tier == 'thorough':
+    mine = [x for x in v if x.get('check', '').startswith(prefixes)]
+    if not mine and tier == 'thorough':
         v = bounded('thorough', seed).get('violations') or []
-    mine = [x for x in v if x.get('function') == qual]
-    return (mine or v or [None])[0]
+        mine = [x for x in v if x.get('check', '').startswith(prefixes)]
+    return (mine or [None])[0]
 
 
 def replay(payload):
